@@ -186,7 +186,128 @@ def c08(sc, tier, seed):
                      'TLC simulation of MC_conc yields walks of 24 steps of 3 connections over a contended vocabulary (read-modify-write on shared keys, multi-key commands, producer-tagged values); each walk is split into one program per connection; the programs run concurrently on the real server (alternating request/response and fully pipelined mode, released from a barrier); in addition the model\'s "hammer" programs (3-4 connections each repeating one contended read-modify-write / multi-key command 60-150 times, pipelined; MULTI/EXEC blocks against MGET observers) are run; TLC (Trace_Lin, depth-first) searches every interleaving of the specification\'s atomic steps for one that explains all replies, per-connection and real-time order, and the final state. Non-trivial = history with overlapping operations of different connections.')
 
 
-CHECKS = {'C02': c02, 'C08': c08, 'C14': c14, 'C10': c10, 'C09': c09, 'C07': c07, 'C06': c06, 'C03': c03, 'C04': c04, 'C05': c05}
+def run_pairs(exe, sc, cases, hook=False, port=23000, tag='pairs'):
+    port = int(os.environ.get('VERIF_PORT', port)) + (900 if hook else 700)
+    cf = sc.path(tag + '-cases.jsonl')
+    rf = sc.path(tag + '-out.jsonl')
+    with open(cf, 'w') as f:
+        for c in cases:
+            f.write(json.dumps(c, separators=(',', ':')) + '\n')
+    cmd = [exe, 'pairs', '-cases', cf, '-out', rf, '-workers', str(NCPU), '-port', str(port)] + (['-hook'] if hook else [])
+    p = subprocess.run(cmd, stdout=subprocess.PIPE, stderr=subprocess.PIPE, text=True)
+    if p.returncode != 0:
+        raise Inconclusive('pairs engine failed: ' + p.stderr[-2000:])
+    return [json.loads(l) for l in open(rf)]
+
+
+def c15(sc, tier, seed):
+    """RESP2 = Down(RESP3): recorded reply pairs judged by TLC (Trace_Resp); HELLO switching by replayed programs."""
+    v = Verdict('C15', tier, seed)
+    exe = build_harness(sc)
+    devs = open_devs()
+    # (1) every command instance of the keyspace / hash / string models, on both protocols
+    cases = []
+    for module, quota in (('MC_keyspace', 1500 if tier == 'quick' else 26000), ('MC_hashes', 800 if tier == 'quick' else 8000),
+                          ('MC_strings', 500 if tier == 'quick' else 6000), ('MC_sets2', 300 if tier == 'quick' else 3000)):
+        out, st = run_tlc(sc, module, mc_cfg(module, []), timeout=900)
+        require_tlc_clean(st, module)
+        v.add_tlc(module, st)
+        cs = [c for c in join_cases(tlc_json_lines(out))
+              if c['steps'][-1]['ideal']['r']['t'] not in ('rand', 'randone', 'randpairs', 'ttl', 'time', 'dead', 'any')]
+        cases.extend(sample_cases(cs, quota, seed))
+    extra = [['CLIENT', 'LIST'], ['CLIENT', 'INFO'], ['INFO'], ['HELLO'], ['COMMAND', 'COUNT'], ['PING'], ['ECHO', 'x'], ['DBSIZE'],
+             ['CLIENT', 'GETNAME'], ['CLIENT', 'ID'], ['TYPE', 'nokey'], ['COMMAND', 'INFO', 'get'], ['COMMAND', 'DOCS', 'get'], ['COMMAND', 'GETKEYS', 'get', 'k']]
+    for e in extra:
+        cases.append({'pre': {'ents': [], 'now': 1000000, 'conn': []}, 'steps': [{'c': 1, 'cmd': [[ord(ch) for ch in a] for a in e]}]})
+    for i, c in enumerate(cases):
+        c['id'] = i
+    pairs = run_pairs(exe, sc, cases)
+    # introspection replies contain ids / ports / ages that differ between the two executions: digit runs are
+    # normalised on both sides before the comparison (structure and all other text still compared)
+    def norm_digits(t):
+        if isinstance(t, dict):
+            if 's' in t and isinstance(t['s'], list):
+                txt_, out_ = bytes(t['s']).decode('latin-1'), []
+                t['s'] = [ord(ch) for ch in re.sub(r'\d+', '0', txt_)]
+            for x in t.get('a', []) if isinstance(t.get('a'), list) else []:
+                norm_digits(x)
+    for p_ in pairs:
+        if p_['status'] == 'ok' and p_['cmd'] and bytes(p_['cmd'][0]).upper() in (b'CLIENT', b'INFO', b'HELLO'):
+            for x in (p_['r2'], p_['r3']):
+                norm_digits(x)
+                if x.get('t') == 'int':
+                    x['n'] = '0'
+                for y in x.get('a', []) if isinstance(x.get('a'), list) else []:
+                    if isinstance(y, dict) and y.get('t') == 'int':
+                        y['n'] = '0'
+    # (2) every reply tree of depth <= 2 through the public dispatch hook
+    out, st = run_tlc(sc, 'MC_trees', mc_cfg('MC_trees', []), timeout=600)
+    require_tlc_clean(st, 'MC_trees')
+    v.add_tlc('MC_trees', st)
+    tcases = join_cases(tlc_json_lines(out))
+    for i, c in enumerate(tcases):
+        c['id'] = len(cases) + i
+    tpairs = run_pairs(exe, sc, tcases, hook=True, tag='tpairs')
+    allp = sorted([p for p in pairs + tpairs if p['status'] == 'ok'], key=lambda p: p['id'])
+    skipped = [p for p in pairs + tpairs if p['status'] != 'ok']
+    d = sc.path('tlc-resp')
+    shutil.copytree(SPEC, d)
+    with open(os.path.join(d, 'pairs.ndjson'), 'w') as f:
+        for p in allp:
+            f.write(json.dumps({'r2': p['r2'], 'r3': p['r3']}, separators=(',', ':')) + '\n')
+    cfg = open(os.path.join(SPEC, 'Trace_Resp.cfg')).read().replace('OpenDev = {}', 'OpenDev = ' + tla_set(devs))
+    out, st = run_tlc(sc, 'Trace_Resp', cfg, workers=1, timeout=900, tag='resp')
+    # run_tlc copies the spec dir afresh: place the pairs file there and run again if it was missing
+    txt = open(out, errors='replace').read()
+    if 'pairs.ndjson' in txt and 'rror' in txt:
+        shutil.copy(os.path.join(d, 'pairs.ndjson'), os.path.join(os.path.dirname(out), 'pairs.ndjson'))
+        out, st = run_tlc(sc, 'Trace_Resp', cfg, workers=1, timeout=900, tag='resp')
+        txt = open(out, errors='replace').read()
+    m = re.search(r'<<"PAIRS", (\d+)>>', txt)
+    if not m or int(m.group(1)) != len(allp):
+        raise Inconclusive('Trace_Resp did not judge the recorded pairs:\n' + txt[-2000:])
+    v.add_tlc('Trace_Resp', st)
+
+    flat = re.sub(r'\s+', '', txt)
+
+    def idx_set(tag, dev=None):
+        pat = r'<<"%s",%s\{([^}]*)\}>>' % (tag, ('"%s",' % dev) if dev else '')
+        mm = re.search(pat, flat)
+        if not mm:
+            raise Inconclusive('Trace_Resp printed no %s set' % tag)
+        return [int(x) for x in mm.group(1).replace(' ', '').split(',') if x]
+    bad = [('RESP3 type emitted on a RESP2 connection', n) for n in idx_set('BADR2')] + \
+          [('RESP2 reply is not the down-conversion of the RESP3 reply', n) for n in idx_set('BADDOWN')]
+    for why, n in bad[:25]:
+        p = allp[n - 1]
+        v.record_violation({'cmd': p['cmd'], 'r2': p['r2'], 'r3': p['r3']},
+                           {'fail': {'status': 'viol', 'cmd': cmd_text(p['cmd']), 'detail': why + ': r2=%s r3=%s' % (json.dumps(p['r2'])[:200], json.dumps(p['r3'])[:200])}},
+                           engine='trace_resp')
+    for dv in devs:
+        if ('"KNOWN","%s"' % dv) in flat:
+            ks = idx_set('KNOWN', dv)
+            for n in ks:
+                v.record_known(dv, cmd_text(allp[n - 1]['cmd'])[:120])
+    v.cov['evaluations'] += len(pairs) + len(tpairs)
+    v.cov['traces_validated_against_impl'] += len(allp)
+    v.cov['distinct_nontrivial'] += sum(1 for p in allp if p['r2'] != p['r3'])
+    v.cov['engines']['pairs'] = {'pairs_judged': len(allp), 'no_reply_skipped': len(skipped), 'pairs_with_different_wire_form': sum(1 for p in allp if p['r2'] != p['r3']),
+                                 'reply_trees_via_hook': len(tpairs)}
+    v.cov['samples'].append({'cmd': cmd_text(allp[0]['cmd']), 'r2': allp[0]['r2'], 'r3': allp[0]['r3']})
+    # (3) HELLO switching per connection
+    out, st = run_tlc(sc, 'MC_hello', mc_cfg('MC_hello', devs), timeout=600)
+    require_tlc_clean(st, 'MC_hello')
+    v.add_tlc('MC_hello', st)
+    hc = join_cases(tlc_json_lines(out))
+    results, dt = run_replay(exe, sc, hc)
+    v.absorb_replay(hc, results, engine='hello-programs')
+    v.assumptions = ['random and clock-dependent replies are excluded from the pair comparison (two executions differ legitimately)',
+                     'commands that crash or do not answer are reported by the functional checks, not here',
+                     'scalar RESP3-only types may be rendered as simple or bulk string under RESP2 (same text)']
+    return v.finish(rule='pairs (command, RESP2 reply, RESP3 reply) recorded from the real server for the command universes of the keyspace/hash/string/set models plus introspection commands, and for every reply tree of depth <= 2 over all node types (nil, int, string, bool, double incl. inf, big number, array, set, map; through the public dispatch hook); TLC (Trace_Resp) judges Resp2Only(r2) and r2 = Down(r3) for every pair; all 2-connection programs of length 3 over HELLO variants are replayed with wire-type checks against the protocol in force. Non-trivial = pair whose two wire forms differ.')
+
+
+CHECKS = {'C02': c02, 'C15': c15, 'C08': c08, 'C14': c14, 'C10': c10, 'C09': c09, 'C07': c07, 'C06': c06, 'C03': c03, 'C04': c04, 'C05': c05}
 
 
 def replay_path(path):
